@@ -693,6 +693,79 @@ impl Family for BinaryDifferential {
     }
 }
 
+
+/// A parameter and a return member of one operation that have the SAME name (and so the same scoped name) and BOTH a
+/// deprecated type: each of the two lints is governed by the attribute on its own member, whatever the other one carries.
+pub struct SameNameBothDeprecated;
+const SN_ATTRS: [&str; 5] = ["", "[allow(Deprecated)]", "[allow(All)]", "[allow(BrokenDocLink)]", "[allow(BrokenDocLink, Deprecated)]"];
+impl Family for SameNameBothDeprecated {
+    fn name(&self) -> String {
+        "same-name-both-deprecated/a parameter and a return member named alike, both of a deprecated type: 5 x 5 attribute assignments x attribute on the operation x 2 file orders x a third like-named member in another operation".into()
+    }
+    fn len(&self) -> u64 {
+        5 * 5 * 3 * 2
+    }
+    fn describe(&self, idx: u64) -> Value {
+        json!({"files": Self::texts(idx)})
+    }
+    fn run(&self, idx: u64) -> CaseOut {
+        let texts = Self::texts(idx);
+        let mut out = CaseOut::new(hash_str(&format!("snbd{idx}")));
+        out.validated = 1;
+        out.nontrivial = true;
+        let d = decode_index(idx, &[5, 5, 3, 2]);
+        let (pa, ra, oa) = (d[0] as usize, d[1] as usize, d[2] as usize);
+        let refs: Vec<&str> = texts.iter().map(|s| s.as_str()).collect();
+        let ctx = || texts.join("--- next file ---\n");
+        let (_ast, _files, diags) = match compile_texts(&refs, None) {
+            Ok(x) => x,
+            Err((loc, msg)) => {
+                out.violate(format!("c13/same-name/panic@{loc}"), format!("panic at {loc}: {msg}\n{}", ctx()));
+                return out;
+            }
+        };
+        let silences = |a: usize| matches!(a, 1 | 2 | 4);
+        let op_silences = oa != 0;
+        // rows of the main file (see `texts`): parameter x on row 6, return member x on row 9, the other operation's x on row 14
+        let main = if d[3] == 1 { "string-1" } else { "string-0" };
+        for (what, row, exp_allowed) in [("parameter", 6usize, silences(pa) || op_silences), ("return member", 9, silences(ra) || op_silences), ("parameter of the other operation", 14, false)] {
+            let hits: Vec<&DiagObs> = diags.iter().filter(|d| d.code == "Deprecated" && d.file.as_deref() == Some(main) && d.span.map_or(false, |s| s.sr == row)).collect();
+            if hits.len() != 1 {
+                out.violate("c13/same-name/lint-missing-or-repeated", format!("{} Deprecated lint(s) on row {row} ({what}); diagnostics {:?}\n{}", hits.len(), diags.iter().map(|d| (&d.code, &d.level, d.span.map(|s| s.sr))).collect::<Vec<_>>(), ctx()));
+                continue;
+            }
+            let got = hits[0].level == "allowed";
+            if got != exp_allowed {
+                out.violate(
+                    format!("c13/same-name/{}/{}", if exp_allowed { "not-silenced" } else { "wrongly-silenced" }, what.split(' ').next().unwrap()),
+                    format!("the Deprecated lint of the {what} (row {row}) has level {} but the attributes on its own member / its operation {} it\n{}", hits[0].level, if exp_allowed { "allow" } else { "do not allow" }, ctx()),
+                );
+            }
+        }
+        if diags.iter().any(|d| d.level == "error") {
+            out.violate("c13/same-name/error", format!("{:?}\n{}", diags.iter().map(|d| (&d.code, &d.level)).collect::<Vec<_>>(), ctx()));
+        }
+        out.class = format!("p{pa}r{ra}o{oa}");
+        out
+    }
+}
+impl SameNameBothDeprecated {
+    fn texts(idx: u64) -> Vec<String> {
+        let d = decode_index(idx, &[5, 5, 3, 2]);
+        let op_attr = ["", "[allow(Deprecated)]", "[allow(All)]"][d[2] as usize];
+        let main = format!(
+            "module M\n[deprecated] struct D {{}}\ninterface I {{\n{op_attr}\n  op(\n    {}x: D\n    w: bool\n  ) -> (\n    {}x: D\n    y: bool\n  )\n\n  other(\n    x: D\n  )\n}}\n",
+            SN_ATTRS[d[0] as usize], SN_ATTRS[d[1] as usize]
+        );
+        let other = "module N\nstruct Z {}\n".to_string();
+        if d[3] == 1 {
+            vec![other, main]
+        } else {
+            vec![main, other]
+        }
+    }
+}
+
 pub fn families(_tier: &str) -> Vec<Box<dyn Family>> {
-    vec![Box::new(DuplicateFile), Box::new(Product::new()), Box::new(BinaryDifferential::new()), Box::new(PlacementPairs::new())]
+    vec![Box::new(DuplicateFile), Box::new(Product::new()), Box::new(BinaryDifferential::new()), Box::new(PlacementPairs::new()), Box::new(SameNameBothDeprecated)]
 }
